@@ -28,7 +28,7 @@ def work(chunk, st, second):
 def account(st, arch, short, plan, res):
     fk = tuple(f[0] for _k, f in plan)
     st.execution(res.world, outcome=(arch, res.status, bool(res.hang), fk), root=(arch, short, plan),
-                 nontrivial=(arch, plan) if plan else None)
+                 nontrivial=(arch, plan) if plan else None, detail='conn' if len(plan) < 2 else 'light')
     st.extra['deviations_%d' % len(plan)] += 1
     for sig, detail in F.judge_c09(res, arch, plan):
         st.violation('%s:%s' % (arch, sig), {'arch': arch, 'short': short, 'plan': plan, 'what': detail,
